@@ -40,6 +40,23 @@ TINY = ["select 1", "a;b;", "select a from b", "x = 1", "(1)", "select 'x'",
         "f(a, b)", "a -- c\n", "select *", "1; 2", "case a end", "[x].y",
         "a as b", "in (1)", "x::int", "go", "order by a", "/*c*/ 1"]
 
+# short texts that drive the stateful layout filters through their nested
+# blocks (sub-selects in parentheses, GROUP/ORDER BY lists, CASE, functions,
+# comments): what two threads must both be doing for leaked filter state to
+# show
+RICH = [
+    "select a, b from (select c from d) e order by a, b",
+    "select a from t where b in (select c from d where e = 1)",
+    "select case when a then 1 else 2 end, b from t group by a, b",
+    "select f(a, b), g(c) from t join u on t.x = u.x where y = 1 and z = 2",
+    "select a, -- c\n b from t; select 2 from (select 3) x",
+    "insert into t (a, b) values (1, 2), (3, 4); select 1",
+    "select k, v from kv where k = 1 and v = 2",
+    "select a from (select b from (select c from d)) order by a desc, b",
+    "update t set a = 1, b = 2 where c in (1, 2, 3); select 'x';",
+    "select a + b * c, 'it''s' from t where x between 1 and 2 or y > 3",
+]
+
 # one word unique to each of the nine keyword dictionaries, in the order the
 # dictionaries are added, plus a literal, a number and a dotted name
 PROBE_I = "or dba row box cmp distinctrow issue enum no 'x' 1 a.b"
@@ -239,7 +256,8 @@ def draw_opts(rng):
 CONSTRUCTS = ['paren', 'bracket', 'func', 'case', 'subquery', 'arith',
               'unclosed_paren', 'unclosed_bracket', 'unclosed_case',
               'comment_list', 'begin', 'ifblock', 'forloop', 'mixed',
-              'paren_in_where', 'in_list', 'cte']
+              'paren_in_where', 'in_list', 'cte', 'paren_func', 'case_func',
+              'values_func', 'func_alias', 'where_func', 'over_nest']
 
 
 def nest(construct, d):
@@ -288,6 +306,25 @@ def nest(construct, d):
     if construct == 'cte':
         return ('with c as ' + '(with c as ' * d + '(select 1)'
                 + ' select * from c)' * d + ' select * from c')
+    # compound constructs: a deep chain wrapped by a *different* group at the
+    # outermost level, so that the passes which overflow first are not the
+    # ones working at statement level
+    if construct == 'paren_func':
+        return 'select (' + 'f(' * d + '1' + ')' * d + ') from t'
+    if construct == 'case_func':
+        return ('select case when ' + 'f(' * d + 'a' + ')' * d
+                + ' then 1 else 2 end from t')
+    if construct == 'values_func':
+        return ('insert into t values (' + 'f(' * d + '1' + ')' * d
+                + ', 2)')
+    if construct == 'func_alias':
+        return ('select ' + 'f(' * d + 'a' + ')' * d + ' as x, b y from t u')
+    if construct == 'where_func':
+        return ('select a from t where b = ' + 'g(' * d + 'c' + ')' * d
+                + ' and d > 1')
+    if construct == 'over_nest':
+        return ('select sum(' + '(a + ' * d + '1' + ')' * d
+                + ') over (partition by b) from t')
     raise ValueError(construct)
 
 
